@@ -239,10 +239,23 @@ def classify(chk, events):
                 chk.nontrivial(key)
 
 
-def run_and_validate(chk, behaviours, label):
-    """replay scripts on the real code, validate the recorded trace with TLC"""
+def run_and_validate(chk, behaviours, label, max_lines=250000):
+    """replay scripts on the real code, validate the recorded trace with TLC (in pieces of <= max_lines script lines)"""
     if not behaviours:
-        return None
+        return
+    pieces, cur, n = [], [], 0
+    for b in behaviours:
+        if cur and n + len(b) > max_lines:
+            pieces.append(cur)
+            cur, n = [], 0
+        cur.append(b)
+        n += len(b)
+    pieces.append(cur)
+    for k, piece in enumerate(pieces):
+        _run_piece(chk, piece, label if len(pieces) == 1 else "%s-%d" % (label, k + 1))
+
+
+def _run_piece(chk, behaviours, label):
     b = vlib.build("swarm")["swarm"]
     wd = vlib.workdir("swarm-%s-%s" % (chk.pid, label))
     script = os.path.join(wd, "script.txt")
@@ -252,12 +265,12 @@ def run_and_validate(chk, behaviours, label):
             f.write("\n".join(lines) + "\n")
     vlib.sh([b, script, trace], timeout=600)
     events = vlib.read_ndjson(trace)
-    res = vlib.validate("SwarmTrace", trace, heap=HEAP)
+    res = vlib.validate("SwarmTrace", trace, heap="4g" if len(events) > 150000 else HEAP)
     nb = sum(1 for e in events if e["op"] == "reset")
     if nb != len(behaviours):
         raise vlib.MachineryError("swarm driver: %d behaviours in, %d reset events out (%s)" % (len(behaviours), nb, label))
     nplans = sum(1 for e in events if e["op"] == "plan")
-    if res["stats"]["checked"] + len(res.get("viol", [])) < 1 or nplans == 0:
+    if nplans == 0 or res["stats"]["checked"] == 0:
         raise vlib.MachineryError("swarm trace without any judged plan (%s)" % label)
     chk.add_traces(nb, len(events), res, label)
     classify(chk, events)
@@ -265,9 +278,8 @@ def run_and_validate(chk, behaviours, label):
     if plans:
         chk.sample({"source": label, "plan_event": plans[len(plans) // 2]})
     report(chk, res, events, behaviours, label)
-    log("[trace] %s: %d behaviours, %d events, %d plans judged (%d non-empty), %d clause failures" % (
-        label, nb, len(events), res["stats"]["checked"], res["stats"]["nonempty"], len(res.get("viol", []))))
-    return res
+    log("[trace] %s: %d behaviours, %d events, %d plans judged (%d non-empty, %d failing), %d clause failures kept" % (
+        label, nb, len(events), res["stats"]["checked"], res["stats"]["nonempty"], res["stats"]["failed"], len(res.get("viol", []))))
 
 
 def report(chk, res, events, behaviours, label):
@@ -306,14 +318,13 @@ def run(chk):
     log("[gen] %d TLC cases with a plan (%d formula sweep, %d table layouts incl. no-plan states)" % (len(cases), len(h1), len(h2)))
     if len(cases) < 1000:
         raise vlib.MachineryError("TLC case export too small: %d" % len(cases))
-    if not thorough:
-        # the formula sweep is replayed completely; the layouts are sampled
-        nform = sum(1 for h in h1 if any(a["op"] == "plan" for a in h))
-        cases = cases[:nform] + rng.sample(cases[nform:], min(len(cases) - nform, 6000))
+    # the formula sweep is replayed completely; the layouts are sampled
+    nform = sum(1 for h in h1 if any(a["op"] == "plan" for a in h))
+    cases = cases[:nform] + rng.sample(cases[nform:], min(len(cases) - nform, 6000 if not thorough else 60000))
     run_and_validate(chk, cases, "tlc-cases")
-    ext = [extend(c, rng) for c in rng.sample(cases, min(len(cases), 3000 if not thorough else 30000))]
+    ext = [extend(c, rng) for c in rng.sample(cases, min(len(cases), 3000 if not thorough else 15000))]
     run_and_validate(chk, ext, "tlc-cases-extended")
-    n = 2500 if not thorough else 40000
+    n = 2500 if not thorough else 20000
     run_and_validate(chk, random_store(rng, n), "random-store")
     run_and_validate(chk, random_node(rng, 300 if not thorough else 4000), "random-node")
     chk.cov["exhaustive"] = False
